@@ -266,3 +266,11 @@ func (g *wgen) next(t *rapid.T, lim limits, ops []string) WStep {
 		return WStep{Op: "prune", Set: set}
 	}
 }
+
+// addOnly appends a block that only adds k leaves (used when a generator needs live leaves).
+func (g *wgen) addOnly(k int) WStep {
+	g.stack = append(g.stack, wgFrame{f: g.f.Clone()})
+	b := Block{Add: k, Salt: g.branch, DM: "none", AM: "forced"}
+	applyToModel(g.f, b)
+	return WStep{Op: "block", B: &b}
+}
